@@ -78,6 +78,7 @@ class _Mon:
 
 
 MON = _Mon()
+_ALIASES = set()
 
 
 def _core_of(label, a):
@@ -123,7 +124,7 @@ def install_hooks(rec):
 
 
 def table_findings(core, sfp, purged_a, purged_b, rec):
-    """The lookup tables against the child lists.  Yields (key, subject, what)."""
+    """The lookup tables against the child lists.  Returns [(key, subject name, what, object)]."""
     out = []
     kids = list(core.getChildren())
     kidset = {id(a) for a in kids}
@@ -134,12 +135,12 @@ def table_findings(core, sfp, purged_a, purged_b, rec):
         got = cbl.get(a.spatialLocator)
         if got is not a:
             out.append(("lookup/childrenByLocator/present-assembly-not-found-at-its-locator", a.getName(),
-                        "childrenByLocator[%s] is %s, but %s has that locator" % (a.spatialLocator, got, a)))
+                        "childrenByLocator[%s] is %s, but %s has that locator" % (a.spatialLocator, got, a), a))
     for loc, a in list(cbl.items()):
         if id(a) not in kidset:
-            out.append(("lookup/childrenByLocator/entry-for-absent-assembly", a.getName(), "childrenByLocator[%s] = %s which is not a child of the core" % (loc, a)))
+            out.append(("lookup/childrenByLocator/entry-for-absent-assembly", a.getName(), "childrenByLocator[%s] = %s which is not a child of the core" % (loc, a), a))
         elif a.spatialLocator != loc:
-            out.append(("lookup/childrenByLocator/stale-key", a.getName(), "childrenByLocator[%s] = %s whose locator is %s" % (loc, a, a.spatialLocator)))
+            out.append(("lookup/childrenByLocator/stale-key", a.getName(), "childrenByLocator[%s] = %s whose locator is %s" % (loc, a, a.spatialLocator), a))
     # 2. at most one assembly per location
     rec.hit("lookup.one-per-location")
     seen = {}
@@ -147,9 +148,9 @@ def table_findings(core, sfp, purged_a, purged_b, rec):
         loc = a.spatialLocator
         k = tuple(int(x) for x in loc.indices) if getattr(loc, "grid", None) is not None else None
         if k is None:
-            out.append(("location/core-child-without-grid-location", a.getName(), "%s is a child of the core but its locator %r has no grid" % (a, loc)))
+            out.append(("location/core-child-without-grid-location", a.getName(), "%s is a child of the core but its locator %r has no grid" % (a, loc), a))
         elif k in seen:
-            out.append(("location/two-assemblies-one-location", a.getName(), "%s and %s both sit at %s" % (seen[k], a, k)))
+            out.append(("location/two-assemblies-one-location", a.getName(), "%s and %s both sit at %s" % (seen[k], a, k), a))
         else:
             seen[k] = a
     # 3. names -> every present assembly / block under its current name
@@ -160,20 +161,26 @@ def table_findings(core, sfp, purged_a, purged_b, rec):
     for where, a in present:
         if abn.get(a.getName()) is not a:
             out.append(("lookup/assembliesByName/present-assembly-not-found/%s" % where, a.getName(),
-                        "assembliesByName.get(%r) is %s but %s is in the %s" % (a.getName(), abn.get(a.getName()), a, where)))
+                        "assembliesByName.get(%r) is %s but %s is in the %s" % (a.getName(), abn.get(a.getName()), a, where), a))
         for b in a:
             if bbn.get(b.getName()) is not b:
                 out.append(("lookup/blocksByName/present-block-not-found/%s" % where, b.getName(),
-                            "blocksByName.get(%r) is %s but that block is in %s in the %s" % (b.getName(), bbn.get(b.getName()), a, where)))
+                            "blocksByName.get(%r) is %s but that block is in %s in the %s" % (b.getName(), bbn.get(b.getName()), a, where), b))
     # 4. never a purged one
     if purged_a is not None:
         rec.hit("lookup.purged-not-returned")
+        for n, b in bbn.items():
+            if n != b.getName() and id(b) not in purged_b and (n, id(b)) not in _ALIASES:
+                _ALIASES.add((n, id(b)))
+                rec.add("observed (unjudged): blocksByName keys that are a former name of a block still present", 1)
         for n, a in abn.items():
             if id(a) in purged_a:
-                out.append(("lookup/assembliesByName/returns-purged", n, "assembliesByName[%r] returns the purged %s" % (n, a)))
+                out.append(("lookup/assembliesByName/returns-purged/under-%s-name" % ("current" if n == a.getName() else "former"), n,
+                            "assembliesByName[%r] returns the purged %s" % (n, a), a))
         for n, b in bbn.items():
             if id(b) in purged_b:
-                out.append(("lookup/blocksByName/returns-purged", n, "blocksByName[%r] returns a block of a purged assembly (%s)" % (n, b)))
+                out.append(("lookup/blocksByName/returns-purged/under-%s-name" % ("current" if n == b.getName() else "former"), n,
+                            "blocksByName[%r] returns a block of a purged assembly (%s, current name %s)" % (n, b, b.getName()), b))
     return out
 
 
@@ -192,16 +199,27 @@ def ambient(label, a):
         # armi's own construction: only the core-level tables are meaningful (the pool is registered later)
         fnd = table_findings(core, None, None, None, rec)
         reported, wit = MON.reported, lambda: {"phase": "reactor construction / unarmed core", "n_children": len(core)}
-    for key, subject, what in fnd:
+    for key, subject, what, obj in fnd:
+        if (key, subject) in reported:  # a lingering inconsistency is reported where it first appears
+            continue
+        reported.add((key, subject))
         if label == "Assembly.moveTo":
             # a bare moveTo is not one of the listed fuel-management operations (DESIGN C14 limits)
             rec.skip("bare Assembly.moveTo (not a fuel-management operation) left: " + key)
             continue
-        full = "%s/after-%s" % (key, label)
-        if (full, subject) in reported:
-            continue
-        reported.add((full, subject))
-        rec.violation(full, what, dict(wit(), subject=subject))
+        if sess is not None:
+            key = sess.classify(key, obj)
+        if key.endswith("under-former-name"):
+            # appears at whichever later operation purges the owner; the mechanism is the alias, so no operation suffix
+            rec.violation(key, what, dict(wit(), subject=subject, seen_after=label))
+        else:
+            rec.violation("%s/after-%s" % (key, label), what, dict(wit(), subject=subject))
+
+
+def _tb(e):
+    import traceback
+
+    return "".join(traceback.format_tb(e.__traceback__))
 
 
 # ------------------------------------------------------------------------------------------------ content
@@ -264,6 +282,8 @@ class Session:
         self.purged_a, self.purged_b = set(), set()
         self.at, self.in_sfp, self.seq, self.bcontent, self.stat = {}, [], {}, {}, {}
         self.moved_any = False
+        self.fresh_given_away = set()
+        self.nchecks = 0
         for a in self.core.getChildren():
             ij = tuple(int(x) for x in a.spatialLocator.indices[:2])
             self.at[ij] = a
@@ -312,6 +332,12 @@ class Session:
         self.reported.add((key, subject))
         self.rec.violation(key, what, dict(self.witness(), subject=subject, **extra))
 
+    def classify(self, key, obj):
+        """Name the input class of a table finding from what the harness itself did (never from armi's state)."""
+        if key.startswith("lookup/blocksByName/present-block-not-found") and id(obj) in self.fresh_given_away:
+            return key + "/stationary-block-of-fresh-incoming-handed-to-outgoing"
+        return key
+
     def leave(self, a, p, to_sfp):
         """Model: assembly a leaves core position p (its current blocks go with it)."""
         del self.at[p]
@@ -322,8 +348,13 @@ class Session:
             self.purged_b.update(id(b) for b in self.seq[id(a)])
 
     # -- full check of the real state against the model
-    def check(self, opname):
+    def check(self, opname, involved=None):
+        """involved: assemblies the operation touched - their block contents are re-read every time; everybody's contents every 8th check and
+        at the end of a history (block sequence, locators, inventory, positions: always, for everybody)."""
         rec, core, sfp = self.rec, self.core, self.sfp
+        self.nchecks += 1
+        everybody = involved is None or self.nchecks % 8 == 0
+        touched = {id(x) for x in involved} if involved is not None else set()
         # (2a) inventory
         rec.hit("ledger.inventory")
         kids = list(core.getChildren())
@@ -378,6 +409,9 @@ class Session:
                 if b.parent is not a or int(b.spatialLocator.k) != k or getattr(b.spatialLocator, "grid", None) is not a.spatialGrid:
                     self.viol("content/block-locator-disagrees-with-its-index/after-%s" % opname,
                               "%s[%d]=%s: parent=%s locator=%r grid-is-owner-grid=%s" % (a.getName(), k, b.getName(), b.parent, b.spatialLocator, getattr(b.spatialLocator, "grid", None) is a.spatialGrid), a.getName())
+                if not (everybody or id(a) in touched):
+                    continue
+                rec.hit("content.block-reads")
                 new = block_content(b)
                 old = self.bcontent[id(b)]
                 if new != old:
@@ -451,7 +485,7 @@ class Session:
                 desc["outcome"] = "refused"
                 rec.reject("swapAssemblies refused: stationary blocks not aligned")
                 rec.hit("op.swap.refused-misaligned")
-                self.check("refused-swapAssemblies")
+                self.check("refused-swapAssemblies", [a, b])
                 return False
             rec.crash("swapAssemblies", e, self.witness())
             self.dead = True
@@ -473,7 +507,7 @@ class Session:
             rec.hit("stationary.exchanged")
         rec.hit("op.swap.accepted")
         self.moved_any = True
-        self.check("swapAssemblies")
+        self.check("swapAssemblies", [a, b])
         return True
 
     def op_cascade(self, chain):
@@ -510,7 +544,7 @@ class Session:
                 rec.hit("stationary.exchanged")
             rec.hit("op.cascade.accepted")
             self.moved_any = True
-            self.check("swapCascade")
+            self.check("swapCascade", chain)
             return
         if raised is None:
             desc["outcome"] = "done-misaligned"
@@ -540,7 +574,7 @@ class Session:
                     # the block that stays at p; the one it displaced stays at its own cell likewise
                     self.seq[id(a)][k] = b
         assert members
-        self.check("refused-swapCascade")
+        self.check("refused-swapCascade", chain)
 
     def op_discharge(self, rng, incoming_from, outgoing):
         rec = self.rec
@@ -553,6 +587,8 @@ class Session:
             desc = {"op": "dischargeSwap", "incoming": "fresh:%s:%s" % (design, how), "out": list(p)}
         ki, ko = self.ks(inc), self.ks(outgoing)
         self.history.append(desc)
+        if incoming_from == "fresh" and ki == ko:
+            self.fresh_given_away.update(id(self.seq[id(inc)][k]) for k in ki)  # known before the call: the ambient hook classifies with it
         try:
             self.fh.dischargeSwap(inc, outgoing)
         except ValueError as e:
@@ -560,15 +596,15 @@ class Session:
                 desc["outcome"] = "refused"
                 rec.reject("dischargeSwap refused: stationary blocks not aligned")
                 rec.hit("op.dischargeSwap.refused-misaligned")
-                self.check("refused-dischargeSwap")
+                self.check("refused-dischargeSwap", [inc, outgoing])
                 return
             rec.crash("dischargeSwap.%s" % incoming_from, e, self.witness())
             self.dead = True
             return
         except Exception as e:
             where = "dischargeSwap.%s" % incoming_from
-            if self.track and self.sfp is not None and not self.sfp_usable:
-                where = "dischargeSwap.to-default-sfp-without-grid"
+            if self.track and self.sfp is not None and not self.sfp_usable and "_updateNumberOfColumns" in _tb(e):
+                where = "Core.removeAssembly.to-default-sfp-without-grid"  # dischargeSwap discharges through Core.removeAssembly
             rec.crash(where, e, self.witness())
             self.dead = True
             return
@@ -590,7 +626,7 @@ class Session:
         rec.hit("op.dischargeSwap.%s.accepted" % incoming_from)
         rec.hit("op.dischargeSwap.outgoing-%s" % ("to-sfp" if to_sfp else "purged"))
         self.moved_any = True
-        self.check("dischargeSwap.%s" % incoming_from)
+        self.check("dischargeSwap.%s" % incoming_from, [inc, outgoing])
 
     def op_add(self, rng, cell):
         rec = self.rec
@@ -608,7 +644,7 @@ class Session:
         self.note_stationary(cell, a)
         rec.hit("op.add.accepted")
         self.moved_any = True
-        self.check("Core.add")
+        self.check("Core.add", [a])
 
     def op_remove(self, a, discharge):
         rec = self.rec
@@ -620,7 +656,7 @@ class Session:
             self.core.removeAssembly(a, discharge=discharge)
         except Exception as e:
             where = "Core.removeAssembly"
-            if to_sfp and not self.sfp_usable:
+            if to_sfp and not self.sfp_usable and "_updateNumberOfColumns" in _tb(e):
                 where = "Core.removeAssembly.to-default-sfp-without-grid"
             rec.crash(where, e, self.witness())
             self.dead = True
@@ -632,7 +668,7 @@ class Session:
         rec.hit("op.remove.accepted")
         rec.hit("op.remove.to-sfp" if to_sfp else "op.remove.purged")
         self.moved_any = True
-        self.check("Core.removeAssembly")
+        self.check("Core.removeAssembly", [a])
 
     def step(self, rng, weights):
         """One randomly chosen valid-usage operation."""
@@ -706,7 +742,7 @@ def make_spec(rng, rings, symmetry, sfp_mode):
 
     nd = rng.choice([2, 2, 3])
     spec = gen.core_spec(rng, rings=rings, symmetry=symmetry, ndesigns=nd, holes=rng.choice([0.1, 0.25, 0.4]), nblocks=rng.randint(3, 5),
-                         kinds=["fuel", "fuel", "shield", "control", "plenum", "plenum"])
+                         kinds=["fuel", "fuel", "shield", "control", "plenum", "plenum"], sfp=False)
     ren = {}
     layout = {}
     for d, (dname, ad) in enumerate(spec["assemblies"].items()):
@@ -730,9 +766,7 @@ def make_spec(rng, rings, symmetry, sfp_mode):
         spec["grids"]["sfp"] = {"geom": "cartesian", "symmetry": "full", "lattice pitch": (50.0, 50.0),
                                 "contents": {(i % ncol, i // ncol): rng.choice(specs) for i in range(n0)}}
     spec["nuclide flags"] = gen.nuclide_flags_for(spec)
-    text = gen.render_blueprint(spec)
-    if sfp_mode == "empty":
-        text = text.rstrip("\n") + " {}\n"
+    text = gen.render_blueprint(spec)  # an empty pool grid is rendered without a contents key
     return spec, text, layout
 
 
@@ -767,13 +801,16 @@ def build_generated(rec, rng, rings, symmetry, sbf, track, sfp_mode):
 WEIGHTS = (40, 10, 14, 8, 14, 14)
 
 
-def run_history(rec, sess, rng, nops, sig, sample=None, probes=True):
+def run_history(rec, sess, rng, nops, sig, sample=False, probes=True):
+    n0 = len(sess.history)
     for _ in range(nops):
         if sess.dead:
             break
         sess.step(rng, WEIGHTS)
+    if not sess.dead:
+        sess.check("end-of-history")
     outcome_sig = [(h["op"], h.get("a"), h.get("b"), h.get("cells"), h.get("cell"), h.get("out"), h.get("incoming", "")[:5], h.get("discharge"), h.get("outcome")) for h in sess.history]
-    rec.case(sig + [outcome_sig], nontrivial=sess.moved_any, sample=sample)
+    rec.case(sig + [outcome_sig], nontrivial=sess.moved_any, sample=dict(sess.info, first_ops=sess.history[n0:n0 + 8]) if sample else None)
     sess.moved_any = False
     if probes and not sess.dead:
         sess.probes(rng)
@@ -781,6 +818,7 @@ def run_history(rec, sess, rng, nops, sig, sample=None, probes=True):
 
 def gen_case(rec, spec, i):
     rng = random.Random("%s:%d" % (spec["rng"], i))
+    random.seed("%s:%d:armi-global" % (spec["rng"], i))  # armi draws placeholder assembly numbers from the global generator; replays only
     sbf, track = COMBOS[(i + spec["shard"]) % len(COMBOS)]
     symmetry = rng.choice(["third periodic", "full"])
     rings = rng.randint(2, spec["maxrings"] if symmetry.startswith("third") else max(2, spec["maxrings"] - 1))
@@ -800,9 +838,7 @@ def gen_case(rec, spec, i):
         if [int(f) for f in r.core.stationaryBlockFlagsList] != [int(f) for f in sess.sbf] or bool(r.core._trackAssems) != track:
             rec.violation("settings/fuel-cycle-options-not-applied-to-core", "core has %s / %s" % (r.core.stationaryBlockFlagsList, r.core._trackAssems), info)
         sess.check("construction")
-        run_history(rec, sess, rng, nops, ["gen", symmetry, rings, sbf, track, sfp_mode], sample=dict(info, first_ops=sess.history[:6]) if i < 1 else None)
-        if i < 1 and rec.samples:
-            rec.samples[-1]["first_ops"] = sess.history[:8]
+        run_history(rec, sess, rng, nops, ["gen", symmetry, rings, sbf, track, sfp_mode], sample=i < 1)
     finally:
         sess.close()
 
@@ -810,9 +846,10 @@ def gen_case(rec, spec, i):
 def pairs_case(rec, spec, i):
     """Every unordered pair of occupied cells of a small core, each swapped once (in a seeded order)."""
     rng = random.Random("%s:pairs:%d" % (spec["rng"], i))
+    random.seed("%s:pairs:%d:armi-global" % (spec["rng"], i))
     sbf, track = COMBOS[i % len(COMBOS)]
     symmetry = ["third periodic", "full"][i % 2]
-    rings = 3 if symmetry.startswith("third") else 2
+    rings = 4 if symmetry.startswith("third") else 3
     info = {"reactor": "generated", "case_rng": "%s:pairs:%d" % (spec["rng"], i), "symmetry": symmetry, "rings": rings, "stationaryBlockFlags": SBF_CLASSES[sbf],
             "trackAssems": track, "sfp": "filled", "mode": "all-pairs"}
     try:
@@ -841,7 +878,7 @@ def testreactor_shard(rec, spec):
     from armi.testing import loadTestReactor
     from vlib.env import quiet
 
-    rng0 = random.Random(spec["rng"])
+    random.seed("%s:armi-global" % spec["rng"])
     sbf, track = spec["sbf"], spec["track"]
     info = {"reactor": "armi.testing.loadTestReactor()", "stationaryBlockFlags": SBF_CLASSES[sbf], "trackAssems": track, "shard_rng": spec["rng"]}
     try:
@@ -865,7 +902,7 @@ def testreactor_shard(rec, spec):
             nops = rng.randint(max(10, spec["maxops"] // 3), spec["maxops"])
             n0 = len(sess.history)
             last = i == spec["cases"] - 1
-            run_history(rec, sess, rng, nops, ["testreactor", sbf, track, i], sample=dict(info, first_ops=sess.history[:6]) if i == 0 else None, probes=last)
+            run_history(rec, sess, rng, nops, ["testreactor", sbf, track, i], sample=i == 0, probes=last)
             rec.hit("tier.testreactor.ops", len(sess.history) - n0)
             if not last:
                 sess.history = sess.history[-10:]
